@@ -139,6 +139,7 @@ Section Conv.
   Notation run' := (run U parses perr fdiags areport nonagg agg fx).
   Notation count' := (count_modules U).
   Notation fresh' := (fresh U parses perr fdiags areport).
+  Notation send' := (send perr).
 
   Lemma H_disj' k r : mem r (agg k) = true -> mem r (nonagg k) = false.
   Proof. intros H. destruct (mem r (nonagg k)) eqn:E; [rewrite (H_disj _ _ E) in H; discriminate|reflexivity]. Qed.
@@ -153,25 +154,34 @@ Section Conv.
   Definition agg_pending (s : state) :=
     (exists u, In u (qf s) /\ contents s u <> None) \/ qw s <> [] \/ qr s <> [].
 
+  (* every cached diagnostic belongs to a rule that is enabled under the current config *)
+  Definition junkfree (s : state) : Prop :=
+    forall u d, In d (diags s u) -> mem (code d) (nonagg (conf s)) = true \/ mem (code d) (agg (conf s)) = true.
+  (* no file currently shows parse errors *)
+  Definition nomasked (s : state) : Prop := forall u, perrs s u = None.
+
+  (* the parse-related cache entries of [u] reflect its contents [c] *)
+  Definition parse_state (s : state) (u : uri) (c : content) : Prop :=
+    if parses c then modules s u = Some c /\ perrs s u = None else perrs s u = Some c.
+
   Record Inv (s : state) : Prop := {
     i_infl : inflight s = None;
-    i_perrs : forall u, perrs s u = None;
-    i_cont : forall u c, contents s u = Some c -> parses c = true /\ In u U;
-    i_dom : forall u, modules s u <> None -> contents s u <> None;
-    i_parse : forall u c, contents s u = Some c -> In u (qf s) \/ modules s u = Some c;
+    i_cont : forall u c, contents s u = Some c -> In u U;
+    i_dom : forall u, contents s u = None ->
+              modules s u = None /\ perrs s u = None /\ aggs s u = None /\ diags s u = [] /\ pub s u = [];
+    i_parse : forall u c, contents s u = Some c -> In u (qf s) \/ parse_state s u c;
     i_aggs : ow_pending s \/ forall u, aggs s u = ideal_aggs s u;
-    i_file : full_pending s \/ forall u, contents s u <> None -> In u (qf s) \/ nonagg_part s u = target_file s u;
+    i_file : full_pending s \/
+             forall u, contents s u <> None -> In u (qf s) \/ masked s u = true \/ nonagg_part s u = target_file s u;
     i_agg : agg_pending s \/ (count' s <= 1)%nat \/
-            forall u, contents s u <> None -> agg_part s u = areport (conf s) (aggs s) u;
-    i_codes : full_pending s \/
-              forall u d, In d (diags s u) -> mem (code d) (nonagg (conf s)) = true \/ mem (code d) (agg (conf s)) = true;
-    i_pub : forall u, pub s u = diags s u;
+            forall u, contents s u <> None -> masked s u = true \/ agg_part s u = areport (conf s) (aggs s) u;
+    i_codes : full_pending s \/ junkfree s;
+    i_pub : count' s = 0%nat \/ qw s ++ qr s <> [] \/ forall u, contents s u <> None -> pub s u = send' s u;
     i_nodiag : forall u, modules s u = None -> diags s u = [];
     i_noagg : forall u, modules s u = None -> aggs s u = None;
     i_jobs : forall j, In j (qw s ++ qr s) -> w_overwrite j = true -> w_aggonly j = false }.
 
-  Notation ok_label := (parse_ok_label U parses).
-  Notation ok_init := (parse_ok_init U parses).
+  Notation au_label := (job_atomic_label U).
 
   Lemma upd_same {A} (m : fmap A) u x : upd m u x u = x.
   Proof. unfold upd. rewrite N.eqb_refl. reflexivity. Qed.
@@ -182,11 +192,6 @@ Section Conv.
   Lemma updl_other {A} (m : uri -> list A) u x v : v <> u -> updl m u x v = m v.
   Proof. intros H. unfold updl. destruct (N.eqb_spec v u); [contradiction|reflexivity]. Qed.
 
-  Lemma count_ext s s' : (forall u, is_some (modules s u) = is_some (modules s' u)) -> count' s = count' s'.
-  Proof.
-    intros H. unfold count_modules. f_equal. apply filter_ext. exact H.
-  Qed.
-
   Lemma count_zero_none s u : In u U -> count' s = 0%nat -> modules s u = None.
   Proof.
     unfold count_modules. intros Hu Hc.
@@ -196,27 +201,42 @@ Section Conv.
     destruct (filter (fun u => is_some (modules s u)) U); [destruct Hin|discriminate].
   Qed.
 
+  Lemma count_all_none s : (forall u, In u U -> modules s u = None) -> count' s = 0%nat.
+  Proof.
+    intros H. unfold count_modules. rewrite filter_nil_of; [reflexivity|].
+    intros u Hu. rewrite (H u Hu). reflexivity.
+  Qed.
+
+  Lemma all_modules_none s : Inv s -> count' s = 0%nat -> forall u, modules s u = None.
+  Proof.
+    intros I Hz u. destruct (contents s u) as [c|] eqn:Ec.
+    - apply count_zero_none; [apply (i_cont _ I u c Ec)|exact Hz].
+    - apply (i_dom _ I u Ec).
+  Qed.
+
+  Lemma send_noperr s u : perrs s u = None -> send' s u = diags s u.
+  Proof. intros H. unfold send. rewrite H. reflexivity. Qed.
+
   (* ---------------- initial state ---------------- *)
-  Lemma inv_init f k : ok_init f -> Inv (init_state parses f k).
+  Lemma inv_init f k : in_universe_init U f -> Inv (init_state parses f k).
   Proof.
     intros Hf. constructor; simpl.
     - reflexivity.
-    - intros u. destruct (f u) as [c|] eqn:E; [|reflexivity]. destruct (Hf u c E) as [Hp _]. rewrite Hp. reflexivity.
     - exact Hf.
-    - intros u H. destruct (f u); [discriminate|]. exact H.
-    - intros u c E. right. rewrite E. destruct (Hf u c E) as [Hp _]. rewrite Hp. reflexivity.
+    - intros u E. rewrite E. repeat split.
+    - intros u c E. right. unfold parse_state. simpl. rewrite E. destruct (parses c); auto.
     - left. exists (job_full true). simpl. auto.
     - left. exists (job_full true). simpl. auto.
     - left. right. left. discriminate.
     - left. exists (job_full true). simpl. auto.
-    - reflexivity.
+    - right. left. discriminate.
     - reflexivity.
     - reflexivity.
     - intros j [<-|[<-|[]]] _; reflexivity.
   Qed.
 
   (* ---------------- handlers ---------------- *)
-  Lemma pend_app_ow s (x : list wjob) j :
+  Lemma pend_app_ow s j :
     (exists j0, In j0 (qw s ++ qr s) /\ w_overwrite j0 = true /\ w_aggonly j0 = false) ->
     exists j0, In j0 ((qw s ++ [j]) ++ qr s) /\ w_overwrite j0 = true /\ w_aggonly j0 = false.
   Proof.
@@ -242,18 +262,18 @@ Section Conv.
     - apply H. apply in_or_app. right. exact Hin.
   Qed.
 
-  Lemma inv_set s u c : parses c = true -> In u U -> Inv s ->
+  Lemma app_app_not_nil {A} (a b : list A) x : (a ++ [x]) ++ b <> [].
+  Proof. destruct a; discriminate. Qed.
+
+  Lemma inv_set s u c : In u U -> Inv s ->
     Inv (set_qf (set_contents s (upd (contents s) u (Some c))) (qf s ++ [u])).
   Proof.
-    intros Hp Hu I. destruct I. constructor; simpl.
+    intros Hu I. destruct I. constructor; simpl.
     - (* infl *) assumption.
-    - (* perrs *) assumption.
-    - (* cont *) intros v c' E. destruct (N.eqb_spec v u) as [->|Hne].
-      + rewrite upd_same in E. injection E as <-. auto.
-      + rewrite upd_other in E by exact Hne. eauto.
-    - (* dom *) intros v Hm. destruct (N.eqb_spec v u) as [->|Hne].
-      + rewrite upd_same. discriminate.
-      + rewrite upd_other by exact Hne. auto.
+    - (* cont *) intros v c' E. destruct (N.eqb_spec v u) as [->|Hne]; [exact Hu|].
+      rewrite upd_other in E by exact Hne. eauto.
+    - (* dom *) intros v E. destruct (N.eqb_spec v u) as [->|Hne]; [rewrite upd_same in E; discriminate|].
+      rewrite upd_other in E by exact Hne. auto.
     - (* parse *) intros v c' E. destruct (N.eqb_spec v u) as [->|Hne].
       + left. apply In_app_last.
       + rewrite upd_other in E by exact Hne. destruct (i_parse0 v c' E) as [H|H]; [left; apply In_app_l; exact H|right; exact H].
@@ -264,7 +284,12 @@ Section Conv.
       + rewrite upd_other in Hv by exact Hne. destruct (H v Hv) as [H'|H']; [left; apply In_app_l; exact H'|right; exact H'].
     - (* agg *) left. left. exists u. simpl. split; [apply In_app_last|]. rewrite upd_same. discriminate.
     - (* codes *) exact i_codes0.
-    - (* pub *) assumption.
+    - (* pub *) destruct i_pub0 as [H|[H|H]]; [left; exact H|right; left; exact H|right; right].
+      intros v Hv. change (send' (set_qf (set_contents s (upd (contents s) u (Some c))) (qf s ++ [u])) v) with (send' s v).
+      destruct (N.eqb_spec v u) as [->|Hne].
+      + destruct (contents s u) as [c0|] eqn:Ec; [apply H; rewrite Ec; discriminate|].
+        destruct (i_dom0 u Ec) as (_ & Hp & _ & Hd & Hpub). rewrite Hpub, (send_noperr s u Hp), Hd. reflexivity.
+      + rewrite upd_other in Hv by exact Hne. apply H. exact Hv.
     - (* nodiag *) assumption.
     - (* noagg *) assumption.
     - (* jobs *) assumption.
@@ -273,57 +298,77 @@ Section Conv.
   (* cache.Delete + publish of the deleted URI *)
   Definition deleted (s : state) (u : uri) : state :=
     publish perr (del s u) u.
-  Arguments deleted : simpl never.
 
   Lemma deleted_fields s u :
     contents (deleted s u) = upd (contents s) u None /\ modules (deleted s u) = upd (modules s) u None /\
     perrs (deleted s u) = upd (perrs s) u None /\ aggs (deleted s u) = upd (aggs s) u None /\
     diags (deleted s u) = updl (diags s) u [] /\ conf (deleted s u) = conf s /\ qf (deleted s u) = qf s /\
     qw (deleted s u) = qw s /\ qr (deleted s u) = qr s /\ inflight (deleted s u) = inflight s /\
-    pub (deleted s u) = updl (pub s) u (send perr (del s u) u).
-  Proof. unfold deleted, publish, del. simpl. repeat split; reflexivity. Qed.
+    pub (deleted s u) = updl (pub s) u [].
+  Proof.
+    unfold deleted, publish, del. simpl. repeat split; try reflexivity.
+    unfold send. simpl. rewrite upd_same, updl_same. reflexivity.
+  Qed.
   Opaque deleted.
+
+  Lemma send_deleted_other s u v : v <> u -> send' (deleted s u) v = send' s v.
+  Proof.
+    intros Hne. destruct (deleted_fields s u) as (_ & _ & Ep & _ & Ed & _).
+    unfold send. rewrite Ep, Ed, upd_other, updl_other by exact Hne. reflexivity.
+  Qed.
+
+  Lemma masked_deleted_other s u v : v <> u -> masked (deleted s u) v = masked s v.
+  Proof.
+    intros Hne. destruct (deleted_fields s u) as (_ & _ & Ep & _). unfold masked. rewrite Ep, upd_other by exact Hne. reflexivity.
+  Qed.
+
+  Lemma count_deleted_zero s u : Inv s -> count' s = 0%nat -> count' (deleted s u) = 0%nat.
+  Proof.
+    intros I Hz. apply count_all_none. intros v _. destruct (deleted_fields s u) as (_ & Em & _). rewrite Em.
+    destruct (N.eqb_spec v u) as [->|Hne]; [apply upd_same|rewrite upd_other by exact Hne; apply all_modules_none; assumption].
+  Qed.
 
   (* the clauses of the invariant after [deleted], with the queue-dependent ones stated relative to the
      old queues (delete and rename then add their own job) *)
   Lemma inv_deleted_core s u : Inv s ->
     let s1 := deleted s u in
-    inflight s1 = None /\ (forall v, perrs s1 v = None) /\
-    (forall v c, contents s1 v = Some c -> parses c = true /\ In v U) /\
-    (forall v, modules s1 v <> None -> contents s1 v <> None) /\
-    (forall v c, contents s1 v = Some c -> In v (qf s) \/ modules s1 v = Some c) /\
+    inflight s1 = None /\
+    (forall v c, contents s1 v = Some c -> In v U) /\
+    (forall v, contents s1 v = None ->
+       modules s1 v = None /\ perrs s1 v = None /\ aggs s1 v = None /\ diags s1 v = [] /\ pub s1 v = []) /\
+    (forall v c, contents s1 v = Some c -> In v (qf s) \/ parse_state s1 v c) /\
     ((forall v, aggs s v = ideal_aggs s v) -> forall v, aggs s1 v = ideal_aggs s1 v) /\
-    ((forall v, contents s v <> None -> In v (qf s) \/ nonagg_part s v = target_file s v) ->
-      forall v, contents s1 v <> None -> In v (qf s) \/ nonagg_part s1 v = target_file s1 v) /\
-    ((forall v d, In d (diags s v) -> mem (code d) (nonagg (conf s)) = true \/ mem (code d) (agg (conf s)) = true) ->
-      forall v d, In d (diags s1 v) -> mem (code d) (nonagg (conf s1)) = true \/ mem (code d) (agg (conf s1)) = true) /\
-    (forall v, pub s1 v = diags s1 v) /\ (forall v, modules s1 v = None -> diags s1 v = []) /\
+    ((forall v, contents s v <> None -> In v (qf s) \/ masked s v = true \/ nonagg_part s v = target_file s v) ->
+      forall v, contents s1 v <> None -> In v (qf s) \/ masked s1 v = true \/ nonagg_part s1 v = target_file s1 v) /\
+    (junkfree s -> junkfree s1) /\
+    ((forall v, contents s v <> None -> pub s v = send' s v) -> forall v, contents s1 v <> None -> pub s1 v = send' s1 v) /\
+    (forall v, modules s1 v = None -> diags s1 v = []) /\
     (forall v, modules s1 v = None -> aggs s1 v = None).
   Proof.
     intros I s1. destruct (deleted_fields s u) as (Ec & Em & Ep & Ea & Ed & Ek & Eqf & Eqw & Eqr & Ei & Epub).
-    destruct I. subst s1. rewrite Ei.
+    pose proof I as I0. destruct I. subst s1. rewrite Ei.
     split; [exact i_infl0|].
-    split. { intros v. rewrite Ep. destruct (N.eqb_spec v u) as [->|Hne]; [apply upd_same|rewrite upd_other by exact Hne; auto]. }
     split. { intros v c H. rewrite Ec in H. destruct (N.eqb_spec v u) as [->|Hne]; [rewrite upd_same in H; discriminate|].
              rewrite upd_other in H by exact Hne. apply (i_cont0 v c H). }
-    split. { intros v. rewrite Em, Ec. destruct (N.eqb_spec v u) as [->|Hne].
-             - rewrite !upd_same. intros H; exact H.
-             - rewrite !upd_other by exact Hne. auto. }
-    split. { intros v c. rewrite Em, Ec. destruct (N.eqb_spec v u) as [->|Hne].
+    split. { intros v. rewrite Ec, Em, Ep, Ea, Ed, Epub. destruct (N.eqb_spec v u) as [->|Hne].
+             - rewrite !upd_same, !updl_same. auto.
+             - rewrite !upd_other, !updl_other by exact Hne. apply i_dom0. }
+    split. { intros v c. unfold parse_state. rewrite Em, Ec, Ep. destruct (N.eqb_spec v u) as [->|Hne].
              - rewrite upd_same. discriminate.
-             - rewrite !upd_other by exact Hne. auto. }
+             - rewrite !upd_other by exact Hne. apply i_parse0. }
     split. { intros H v. unfold ideal_aggs. rewrite Ea, Em, Ek. destruct (N.eqb_spec v u) as [->|Hne].
              - rewrite !upd_same. reflexivity.
              - rewrite !upd_other by exact Hne. apply H. }
-    split. { intros H v. unfold nonagg_part, target_file. rewrite Ec, Ed, Em, Ek. destruct (N.eqb_spec v u) as [->|Hne].
-             - rewrite upd_same. intros Hc; contradiction.
-             - rewrite !upd_other, updl_other by exact Hne. apply H. }
+    split. { intros H v. destruct (N.eqb_spec v u) as [->|Hne].
+             - rewrite Ec, upd_same. intros Hc; contradiction.
+             - rewrite (masked_deleted_other s u v Hne). unfold nonagg_part, target_file. rewrite Ec, Ed, Em, Ek.
+               rewrite !upd_other, updl_other by exact Hne. apply H. }
     split. { intros H v d. rewrite Ed, Ek. destruct (N.eqb_spec v u) as [->|Hne].
              - rewrite updl_same. intros [].
              - rewrite updl_other by exact Hne. apply H. }
-    split. { intros v. rewrite Epub, Ed. destruct (N.eqb_spec v u) as [->|Hne].
-             - rewrite !updl_same. unfold send, del; simpl. rewrite upd_same, updl_same. reflexivity.
-             - rewrite !updl_other by exact Hne. auto. }
+    split. { intros H v. destruct (N.eqb_spec v u) as [->|Hne].
+             - rewrite Ec, upd_same. intros Hc; contradiction.
+             - rewrite (send_deleted_other s u v Hne), Epub, Ec, updl_other, upd_other by exact Hne. apply H. }
     split. { intros v. rewrite Em, Ed. destruct (N.eqb_spec v u) as [->|Hne].
              - rewrite updl_same. reflexivity.
              - rewrite upd_other, updl_other by exact Hne. auto. }
@@ -340,27 +385,26 @@ Section Conv.
   Lemma inv_delete s u : Inv s -> Inv (set_qw (deleted s u) (qw (deleted s u) ++ [job_agg])).
   Proof.
     intros I. pose proof (inv_deleted_core s u I) as C. cbv zeta in C.
-    destruct C as (C1 & C2 & C3 & C4 & C5 & C6 & C7 & C8 & C9 & C10 & C11).
+    destruct C as (C1 & C2 & C3 & C4 & C5 & C6 & C7 & C8 & C9 & C10).
     destruct (deleted_fields s u) as (Ec & Em & Ep & Ea & Ed & Ek & Eqf & Eqw & Eqr & Ei & Epub).
     destruct I. constructor; simpl.
     - exact C1.
     - exact C2.
     - exact C3.
-    - exact C4.
-    - intros v c E. rewrite Eqf. apply C5. exact E.
+    - intros v c E. rewrite Eqf. apply C4. exact E.
     - destruct i_aggs0 as [H|H].
-      + left. apply ow_pending_deleted with (u := u) in H. unfold ow_pending in *. simpl. apply pend_app_ow; [exact []|exact H].
-      + right. apply C6. exact H.
+      + left. apply ow_pending_deleted with (u := u) in H. unfold ow_pending in *. simpl. apply pend_app_ow. exact H.
+      + right. apply C5. exact H.
     - destruct i_file0 as [H|H].
       + left. apply full_pending_deleted with (u := u) in H. unfold full_pending in *. simpl. apply pend_app_full. exact H.
-      + right. rewrite Eqf. apply C7. exact H.
+      + right. rewrite Eqf. apply C6. exact H.
     - left. right. left. apply app_last_not_nil.
     - destruct i_codes0 as [H|H].
       + left. apply full_pending_deleted with (u := u) in H. unfold full_pending in *. simpl. apply pend_app_full. exact H.
-      + right. apply C8. exact H.
+      + right. apply C7. exact H.
+    - right. left. apply app_app_not_nil.
     - exact C9.
     - exact C10.
-    - exact C11.
     - apply jobs_app; [rewrite Eqw, Eqr; exact i_jobs0|discriminate].
   Qed.
 
@@ -368,36 +412,42 @@ Section Conv.
     Inv (set_qf (set_contents (deleted s u) (upd (contents (deleted s u)) v (Some c))) (qf (deleted s u) ++ [v])).
   Proof.
     intros Hv Hc I. pose proof (inv_deleted_core s u I) as C. cbv zeta in C.
-    destruct C as (C1 & C2 & C3 & C4 & C5 & C6 & C7 & C8 & C9 & C10 & C11).
+    destruct C as (C1 & C2 & C3 & C4 & C5 & C6 & C7 & C8 & C9 & C10).
     destruct (deleted_fields s u) as (Ec & Em & Ep & Ea & Ed & Ek & Eqf & Eqw & Eqr & Ei & Epub).
-    pose proof (i_cont _ I u c Hc) as [Hpc _].
-    destruct I. constructor; simpl.
+    pose proof I as I0. destruct I. constructor; simpl.
     - exact C1.
-    - exact C2.
-    - intros w c' E. destruct (N.eqb_spec w v) as [->|Hne].
-      + rewrite upd_same in E. injection E as <-. auto.
-      + rewrite upd_other in E by exact Hne. eauto.
-    - intros w Hm. destruct (N.eqb_spec w v) as [->|Hne].
-      + rewrite upd_same. discriminate.
-      + rewrite upd_other by exact Hne. auto.
+    - intros w c' E. destruct (N.eqb_spec w v) as [->|Hne]; [exact Hv|].
+      rewrite upd_other in E by exact Hne. eauto.
+    - intros w E. destruct (N.eqb_spec w v) as [->|Hne]; [rewrite upd_same in E; discriminate|].
+      rewrite upd_other in E by exact Hne. apply C3. exact E.
     - intros w c' E. rewrite Eqf. destruct (N.eqb_spec w v) as [->|Hne].
       + left. apply In_app_last.
-      + rewrite upd_other in E by exact Hne. destruct (C5 w c' E) as [H|H]; [left; apply In_app_l; exact H|right; exact H].
+      + rewrite upd_other in E by exact Hne. destruct (C4 w c' E) as [H|H]; [left; apply In_app_l; exact H|right; exact H].
     - destruct i_aggs0 as [H|H].
       + left. apply ow_pending_deleted with (u := u) in H. exact H.
-      + right. apply C6. exact H.
+      + right. apply C5. exact H.
     - destruct i_file0 as [H|H].
       + left. apply full_pending_deleted with (u := u) in H. exact H.
       + right. rewrite Eqf. intros w Hw. destruct (N.eqb_spec w v) as [->|Hne].
         * left. apply In_app_last.
-        * rewrite upd_other in Hw by exact Hne. destruct (C7 H w Hw) as [H'|H']; [left; apply In_app_l; exact H'|right; exact H'].
+        * rewrite upd_other in Hw by exact Hne. destruct (C6 H w Hw) as [H'|H']; [left; apply In_app_l; exact H'|right; exact H'].
     - left. left. exists v. simpl. split; [apply In_app_last|]. rewrite upd_same. discriminate.
     - destruct i_codes0 as [H|H].
       + left. apply full_pending_deleted with (u := u) in H. exact H.
-      + right. apply C8. exact H.
+      + right. apply C7. exact H.
+    - (* pub *)
+      destruct i_pub0 as [H|[H|H]].
+      + left. change (count' (set_qf (set_contents (deleted s u) (upd (contents (deleted s u)) v (Some c))) (qf (deleted s u) ++ [v])))
+          with (count' (deleted s u)). apply count_deleted_zero; assumption.
+      + right. left. rewrite Eqw, Eqr. exact H.
+      + right. right. intros w Hw.
+        change (send' (set_qf (set_contents (deleted s u) (upd (contents (deleted s u)) v (Some c))) (qf (deleted s u) ++ [v])) w)
+          with (send' (deleted s u) w).
+        destruct (contents (deleted s u) w) as [cw|] eqn:Ew.
+        * apply (C8 H). rewrite Ew. discriminate.
+        * destruct (C3 w Ew) as (_ & Hp & _ & Hd & Hpub). rewrite Hpub, (send_noperr _ w Hp), Hd. reflexivity.
     - exact C9.
     - exact C10.
-    - exact C11.
     - rewrite Eqw, Eqr. exact i_jobs0.
   Qed.
 
@@ -411,13 +461,14 @@ Section Conv.
     - left. destruct Hnew as [j [H1 [_ H2]]]. exists j; auto.
     - left. right. left. apply app_last_not_nil.
     - left. destruct Hnew as [j [H1 [_ H2]]]. exists j; auto.
+    - right. left. apply app_app_not_nil.
     - apply jobs_app; [exact i_jobs0|reflexivity].
   Qed.
 
-  Lemma inv_handle e s s' : ok_label (LEvent e) -> Inv s -> handle perr fx e s = Some s' -> Inv s'.
+  Lemma inv_handle e s s' : in_universe_label U (LEvent e) -> Inv s -> handle perr fx e s = Some s' -> Inv s'.
   Proof.
     intros Hok I Hs. destruct e as [u c|u|u v|k]; simpl in Hs.
-    - injection Hs as <-. destruct Hok. apply inv_set; assumption.
+    - injection Hs as <-. apply inv_set; assumption.
     - injection Hs as <-. exact (inv_delete s u I).
     - destruct (contents s u) as [c|] eqn:Hc; [|discriminate]. injection Hs as <-.
       exact (inv_rename s u v c Hok Hc I).
@@ -439,6 +490,8 @@ Section Conv.
       + destruct i_file0 as [[j0 [Hin Ha]]|H]; [left; exists j0; simpl; auto|right; exact H].
       + left. right. right. exact Hqr.
       + destruct i_codes0 as [[j0 [Hin Ha]]|H]; [left; exists j0; simpl; auto|right; exact H].
+      + destruct i_pub0 as [H|[H|H]]; [left; exact H| |right; right; exact H].
+        right. left. intros E. apply app_eq_nil in E. destruct E as [_ E]. contradiction.
       + intros j0 Hin. apply i_jobs0. rewrite Hq. right. exact Hin.
     - assert (Hkeep : forall j0, In j0 (qw s ++ qr s) -> In j0 (q ++ qr s ++ [j])).
       { intros j0 Hin. rewrite Hq in Hin. simpl in Hin. destruct Hin as [->|Hin].
@@ -449,6 +502,8 @@ Section Conv.
       + destruct i_file0 as [[j0 [Hin Ha]]|H]; [left; exists j0; simpl; auto|right; exact H].
       + left. right. right. apply app_last_not_nil.
       + destruct i_codes0 as [[j0 [Hin Ha]]|H]; [left; exists j0; simpl; auto|right; exact H].
+      + destruct i_pub0 as [H|[H|H]]; [left; exact H| |right; right; exact H].
+        right. left. intros E. apply app_eq_nil in E. destruct E as [_ E]. apply (app_last_not_nil _ _ E).
       + intros j0 Hin. apply i_jobs0. rewrite Hq. apply in_app_or in Hin. destruct Hin as [Hin|Hin].
         * right. apply In_app_l. exact Hin.
         * apply in_app_or in Hin. destruct Hin as [Hin|[<-|[]]]; [right; apply in_or_app; right; exact Hin|left; reflexivity].
@@ -460,56 +515,113 @@ Section Conv.
     intros I Hs. unfold file_job in Hs. rewrite (i_infl _ I) in Hs.
     destruct (qf s) as [|u q] eqn:Hq; [discriminate|]. simpl in Hs.
     destruct (contents s u) as [c|] eqn:Hc.
-    - (* the job runs *)
-      destruct (i_cont _ I u c Hc) as [Hp Hu].
-      unfold update_parse in Hs. rewrite Hp in Hs. simpl in Hs. rewrite upd_same in Hs.
-      unfold file_store in Hs. simpl in Hs. rewrite Hc in Hs. unfold masked in Hs. simpl in Hs.
-      rewrite upd_same in Hs. simpl in Hs. injection Hs as <-.
-      destruct I. constructor; simpl.
-      + assumption.
-      + intros v. destruct (N.eqb_spec v u) as [->|Hne]; [apply upd_same|rewrite upd_other by exact Hne; auto].
-      + assumption.
-      + intros v Hm. destruct (N.eqb_spec v u) as [->|Hne]; [rewrite Hc; discriminate|].
-        rewrite upd_other in Hm by exact Hne. auto.
-      + intros v c' E. destruct (N.eqb_spec v u) as [->|Hne].
-        * right. rewrite upd_same. congruence.
-        * rewrite upd_other by exact Hne. destruct (i_parse0 v c' E) as [H|H]; [|right; exact H].
-          rewrite Hq in H. destruct H as [->|H]; [contradiction|left; exact H].
-      + destruct i_aggs0 as [H|H].
-        * left. unfold ow_pending in *. simpl. apply pend_app_ow; [exact []|exact H].
-        * right. intros v. unfold ideal_aggs. simpl. destruct (N.eqb_spec v u) as [->|Hne].
-          -- rewrite !upd_same. reflexivity.
-          -- rewrite !upd_other by exact Hne. apply H.
-      + destruct i_file0 as [H|H].
-        * left. unfold full_pending in *. simpl. apply pend_app_full. exact H.
-        * right. intros v Hv. unfold nonagg_part, target_file. simpl. destruct (N.eqb_spec v u) as [->|Hne].
-          -- right. rewrite updl_same, upd_same. apply merge_own. intros d Hd. apply (H_fcodes _ _ _ _ Hd).
-          -- rewrite updl_other, upd_other by exact Hne. destruct (H v Hv) as [H'|H']; [|right; exact H'].
-             rewrite Hq in H'. destruct H' as [->|H']; [contradiction|left; exact H'].
-      + left. right. left. apply app_last_not_nil.
-      + destruct i_codes0 as [H|H].
-        * left. unfold full_pending in *. simpl. apply pend_app_full. exact H.
-        * right. intros v d. destruct (N.eqb_spec v u) as [->|Hne].
-          -- rewrite updl_same. unfold merge_rules. intros Hd. apply in_app_or in Hd. destruct Hd as [Hd|Hd].
-             ++ apply filter_In in Hd. apply (H u d). tauto.
-             ++ left. apply (H_fcodes _ _ _ _ Hd).
-          -- rewrite updl_other by exact Hne. apply H.
-      + intros v. destruct (N.eqb_spec v u) as [->|Hne].
-        * rewrite !updl_same. unfold send. simpl. rewrite upd_same, updl_same. reflexivity.
-        * rewrite !updl_other by exact Hne. auto.
-      + intros v. destruct (N.eqb_spec v u) as [->|Hne]; [rewrite upd_same; discriminate|].
-        rewrite upd_other, updl_other by exact Hne. auto.
-      + intros v. destruct (N.eqb_spec v u) as [->|Hne]; [rewrite upd_same; discriminate|].
-        rewrite !upd_other by exact Hne. auto.
-      + apply jobs_app; [exact i_jobs0|discriminate].
-    - (* no contents any more: the job is abandoned *)
+    2:{ (* no contents any more: the job is abandoned *)
       injection Hs as <-. destruct I. constructor; simpl; try assumption.
       + intros v c' E. destruct (i_parse0 v c' E) as [H|H]; [|right; exact H].
         rewrite Hq in H. destruct H as [->|H]; [congruence|left; exact H].
       + destruct i_file0 as [H|H]; [left; exact H|right]. intros v Hv. destruct (H v Hv) as [H'|H']; [|right; exact H'].
         rewrite Hq in H'. destruct H' as [->|H']; [contradiction|left; exact H'].
       + destruct i_agg0 as [[[v [Hv1 Hv2]]|H]|H]; [|left; right; exact H|right; exact H].
-        left. left. exists v. simpl. split; [|exact Hv2]. rewrite Hq in Hv1. destruct Hv1 as [->|Hv1]; [contradiction|exact Hv1].
+        left. left. exists v. simpl. split; [|exact Hv2]. rewrite Hq in Hv1. destruct Hv1 as [->|Hv1]; [contradiction|exact Hv1]. }
+    unfold update_parse in Hs. simpl in Hs.
+    destruct (parses c) eqn:Hp.
+    - (* the contents parse *)
+      simpl in Hs. rewrite upd_same in Hs.
+      unfold file_store in Hs. simpl in Hs. rewrite Hc in Hs. unfold masked in Hs. simpl in Hs.
+      rewrite upd_same in Hs. simpl in Hs. injection Hs as <-.
+      destruct I. constructor; simpl.
+      + assumption.
+      + assumption.
+      + intros v E. assert (Hne : v <> u) by (intros ->; congruence).
+        rewrite !upd_other, !updl_other by exact Hne. apply i_dom0. exact E.
+      + intros v c' E. unfold parse_state. simpl. destruct (N.eqb_spec v u) as [->|Hne].
+        * right. assert (c' = c) by congruence. subst c'. rewrite Hp, !upd_same. auto.
+        * rewrite !upd_other by exact Hne. destruct (i_parse0 v c' E) as [H|H]; [|right; exact H].
+          rewrite Hq in H. destruct H as [->|H]; [contradiction|left; exact H].
+      + destruct i_aggs0 as [H|H].
+        * left. unfold ow_pending in *. simpl. apply pend_app_ow. exact H.
+        * right. intros v. unfold ideal_aggs. simpl. destruct (N.eqb_spec v u) as [->|Hne].
+          -- rewrite !upd_same. reflexivity.
+          -- rewrite !upd_other by exact Hne. apply H.
+      + destruct i_file0 as [H|H].
+        * left. unfold full_pending in *. simpl. apply pend_app_full. exact H.
+        * right. intros v Hv. unfold nonagg_part, target_file, masked. simpl. destruct (N.eqb_spec v u) as [->|Hne].
+          -- right. right. rewrite updl_same, upd_same. apply merge_own. intros d Hd. apply (H_fcodes _ _ _ _ Hd).
+          -- rewrite updl_other, !upd_other by exact Hne. destruct (H v Hv) as [H'|H']; [|right; exact H'].
+             rewrite Hq in H'. destruct H' as [->|H']; [contradiction|left; exact H'].
+      + left. right. left. apply app_last_not_nil.
+      + destruct i_codes0 as [H|H].
+        * left. unfold full_pending in *. simpl. apply pend_app_full. exact H.
+        * right. intros v d. simpl. destruct (N.eqb_spec v u) as [->|Hne].
+          -- rewrite updl_same. unfold merge_rules. intros Hd. apply in_app_or in Hd. destruct Hd as [Hd|Hd].
+             ++ apply filter_In in Hd. apply (H u d). tauto.
+             ++ left. apply (H_fcodes _ _ _ _ Hd).
+          -- rewrite updl_other by exact Hne. apply H.
+      + right. left. apply app_app_not_nil.
+      + intros v. destruct (N.eqb_spec v u) as [->|Hne]; [rewrite upd_same; discriminate|].
+        rewrite upd_other, updl_other by exact Hne. auto.
+      + intros v. destruct (N.eqb_spec v u) as [->|Hne]; [rewrite upd_same; discriminate|].
+        rewrite !upd_other by exact Hne. auto.
+      + apply jobs_app; [exact i_jobs0|discriminate].
+    - (* parse failure: the last good module (if any) stays *)
+      simpl in Hs. unfold file_store in Hs. simpl in Hs. rewrite Hc in Hs. unfold masked in Hs. simpl in Hs.
+      rewrite upd_same in Hs. simpl in Hs.
+      destruct (modules s u) as [mc|] eqn:Hm; simpl in Hs; injection Hs as <-.
+      + destruct I. constructor; simpl.
+        * assumption.
+        * assumption.
+        * intros v E. assert (Hne : v <> u) by (intros ->; congruence).
+          rewrite !upd_other, !updl_other by exact Hne. apply i_dom0. exact E.
+        * intros v c' E. unfold parse_state. simpl. destruct (N.eqb_spec v u) as [->|Hne].
+          -- right. assert (c' = c) by congruence. subst c'. rewrite Hp, upd_same. reflexivity.
+          -- rewrite !upd_other by exact Hne. destruct (i_parse0 v c' E) as [H|H]; [|right; exact H].
+             rewrite Hq in H. destruct H as [->|H]; [contradiction|left; exact H].
+        * destruct i_aggs0 as [H|H].
+          -- left. unfold ow_pending in *. simpl. apply pend_app_ow. exact H.
+          -- right. intros v. unfold ideal_aggs. simpl. destruct (N.eqb_spec v u) as [->|Hne].
+             ++ rewrite upd_same, Hm. reflexivity.
+             ++ rewrite upd_other by exact Hne. apply H.
+        * destruct i_file0 as [H|H].
+          -- left. unfold full_pending in *. simpl. apply pend_app_full. exact H.
+          -- right. intros v Hv. unfold masked. simpl. destruct (N.eqb_spec v u) as [->|Hne].
+             ++ right. left. rewrite upd_same. reflexivity.
+             ++ rewrite upd_other by exact Hne. destruct (H v Hv) as [H'|H']; [|right; exact H'].
+                rewrite Hq in H'. destruct H' as [->|H']; [contradiction|left; exact H'].
+        * left. right. left. apply app_last_not_nil.
+        * destruct i_codes0 as [H|H].
+          -- left. unfold full_pending in *. simpl. apply pend_app_full. exact H.
+          -- right. exact H.
+        * right. left. apply app_app_not_nil.
+        * assumption.
+        * intros v. destruct (N.eqb_spec v u) as [->|Hne]; [rewrite Hm; discriminate|].
+          rewrite upd_other by exact Hne. auto.
+        * apply jobs_app; [exact i_jobs0|discriminate].
+      + destruct I. constructor; simpl.
+        * assumption.
+        * assumption.
+        * intros v E. assert (Hne : v <> u) by (intros ->; congruence).
+          rewrite !upd_other, !updl_other by exact Hne. apply i_dom0. exact E.
+        * intros v c' E. unfold parse_state. simpl. destruct (N.eqb_spec v u) as [->|Hne].
+          -- right. assert (c' = c) by congruence. subst c'. rewrite Hp, upd_same. reflexivity.
+          -- rewrite !upd_other by exact Hne. destruct (i_parse0 v c' E) as [H|H]; [|right; exact H].
+             rewrite Hq in H. destruct H as [->|H]; [contradiction|left; exact H].
+        * destruct i_aggs0 as [H|H].
+          -- left. unfold ow_pending in *. simpl. apply pend_app_ow. exact H.
+          -- right. exact H.
+        * destruct i_file0 as [H|H].
+          -- left. unfold full_pending in *. simpl. apply pend_app_full. exact H.
+          -- right. intros v Hv. unfold masked. simpl. destruct (N.eqb_spec v u) as [->|Hne].
+             ++ right. left. rewrite upd_same. reflexivity.
+             ++ rewrite upd_other by exact Hne. destruct (H v Hv) as [H'|H']; [|right; exact H'].
+                rewrite Hq in H'. destruct H' as [->|H']; [contradiction|left; exact H'].
+        * left. right. left. apply app_last_not_nil.
+        * destruct i_codes0 as [H|H].
+          -- left. unfold full_pending in *. simpl. apply pend_app_full. exact H.
+          -- right. exact H.
+        * right. left. apply app_app_not_nil.
+        * assumption.
+        * assumption.
+        * apply jobs_app; [exact i_jobs0|discriminate].
   Qed.
 
   (* ---------------- workspace-lint run ---------------- *)
@@ -546,9 +658,12 @@ Section Conv.
     apply H_adom. unfold ideal_aggs. rewrite H. reflexivity.
   Qed.
 
-  Lemma inv_ws_run s s' : Inv s -> ws_run U perr fdiags areport agg fx s = Some s' -> Inv s'.
+  (* the only place where the side condition is needed: a full run leaves the diagnostics of files that
+     currently show parse errors untouched *)
+  Lemma inv_ws_run s s' : Inv s -> junkfree s \/ nomasked s ->
+    ws_run U perr fdiags areport agg fx s = Some s' -> Inv s'.
   Proof.
-    intros I Hs. unfold ws_run in Hs. destruct (qr s) as [|j q] eqn:Hq; [discriminate|].
+    intros I Hside Hs. unfold ws_run in Hs. destruct (qr s) as [|j q] eqn:Hq; [discriminate|].
     change (count' (set_qr s q)) with (count' s) in Hs.
     assert (Hrest : forall j0, In j0 (qw s ++ qr s) -> j0 <> j -> In j0 (qw s ++ q)).
     { intros j0 Hin Hne. rewrite Hq in Hin. apply in_app_or in Hin. apply in_or_app.
@@ -558,17 +673,14 @@ Section Conv.
     destruct (Nat.eqb (count' s) 0) eqn:Hz.
     - (* no module at all: the run is skipped *)
       simpl in Hs. injection Hs as <-. apply Nat.eqb_eq in Hz.
-      assert (Hallnone : forall v, modules s v = None).
-      { intros v. destruct (modules s v) as [mv|] eqn:E; [|reflexivity].
-        assert (Hc : contents s v <> None) by (apply (i_dom _ I); rewrite E; discriminate).
-        destruct (contents s v) as [cv|] eqn:Ec; [|contradiction].
-        rewrite (count_zero_none s v (proj2 (i_cont _ I v cv Ec)) Hz) in E. discriminate. }
+      pose proof (all_modules_none s I Hz) as Hallnone.
       destruct I. constructor; simpl; try assumption.
       + right. intros v. unfold ideal_aggs. simpl. rewrite (Hallnone v). apply i_noagg0. apply Hallnone.
-      + right. intros v Hv. destruct (contents s v) as [c|] eqn:Ec; [|contradiction].
-        destruct (i_parse0 v c Ec) as [H|H]; [left; exact H|]. rewrite (Hallnone v) in H. discriminate.
+      + right. intros v Hv. right. right. unfold nonagg_part, target_file. simpl.
+        rewrite (Hallnone v), (i_nodiag0 v (Hallnone v)). reflexivity.
       + right. left. change (count' (set_qr s q)) with (count' s). lia.
-      + right. intros v d Hd. rewrite (i_nodiag0 v (Hallnone v)) in Hd. destruct Hd.
+      + right. intros v d Hd. simpl in Hd. rewrite (i_nodiag0 v (Hallnone v)) in Hd. destruct Hd.
+      + left. exact Hz.
       + intros j0 Hin. apply i_jobs0. apply Hsub. exact Hin.
     - (* the run *)
       apply Nat.eqb_neq in Hz. injection Hs as <-.
@@ -576,16 +688,20 @@ Section Conv.
       assert (Hdiags : forall v, run_diags U fdiags areport agg fx j s0 v =
                 match contents s v with
                 | None => diags s v
-                | Some _ => if w_aggonly j then merge_rules (agg (conf s)) (diags s v) (areport (conf s) (aggs s) v)
-                            else full_fd U fdiags areport s v
+                | Some _ =>
+                    if w_aggonly j
+                    then (if masked s v then diags s v else merge_rules (agg (conf s)) (diags s v) (areport (conf s) (aggs s) v))
+                    else (if masked s v then diags s v else full_fd U fdiags areport s v)
                 end).
-      { intros v. unfold run_diags, masked. simpl. rewrite (i_perrs _ I). simpl. unfold agg_fd. simpl. reflexivity. }
-      assert (Hnone : forall v, contents s v = None -> diags s v = []).
-      { intros v Hv. apply (i_nodiag _ I). destruct (modules s v) eqn:E; [|reflexivity].
-        exfalso. apply (i_dom _ I v); [rewrite E; discriminate|exact Hv]. }
+      { intros v. unfold run_diags. simpl. unfold agg_fd. simpl. rewrite andb_true_r. reflexivity. }
       assert (Hjshape : w_overwrite j = true -> w_aggonly j = false).
       { apply (i_jobs _ I). rewrite Hq. apply in_or_app. right. left. reflexivity. }
-      destruct I. constructor; simpl; try assumption.
+      pose proof I as I0. destruct I. constructor; simpl; try assumption.
+      + (* dom *)
+        intros v E. destruct (i_dom0 v E) as (Hm & Hp & Ha & Hd & Hpub).
+        rewrite Hdiags, E. repeat split; try assumption.
+        unfold run_aggs. destruct (w_overwrite j); [|exact Ha].
+        destruct (w_aggonly j); [reflexivity|]. unfold ideal_aggs. simpl. rewrite Hm. reflexivity.
       + (* aggregates *)
         unfold run_aggs. destruct (w_overwrite j) eqn:Ho.
         * first [rewrite (Hjshape eq_refl)|rewrite (Hjshape Ho)]. right. intros v. reflexivity.
@@ -596,48 +712,56 @@ Section Conv.
         destruct (w_aggonly j) eqn:Ha.
         * destruct i_file0 as [[j0 [Hin Ha0]]|H].
           -- left. exists j0. simpl. split; [|exact Ha0]. apply Hrest; [exact Hin|congruence].
-          -- right. intros v Hv. destruct (H v Hv) as [H'|H']; [left; exact H'|right].
-             unfold nonagg_part, target_file in *. simpl. rewrite Hdiags.
+          -- right. intros v Hv. destruct (H v Hv) as [H'|[H'|H']]; [left; exact H'|right; left; exact H'|].
+             destruct (masked s v) eqn:Em; [right; left; exact Em|right; right].
+             unfold nonagg_part, target_file in *. simpl. rewrite Hdiags, Em.
              destruct (contents s v); [|contradiction].
              rewrite (merge_other (agg (conf s)) (nonagg (conf s))); [exact H'|apply H_disj'|].
              intros d Hd. apply (H_acodes _ _ _ _ Hd).
-        * right. intros v Hv. right. unfold nonagg_part, target_file. simpl. rewrite Hdiags.
+        * right. intros v Hv. right. destruct (masked s v) eqn:Em; [left; exact Em|right].
+          unfold nonagg_part, target_file. simpl. rewrite Hdiags, Em.
           destruct (contents s v); [|contradiction]. apply nonagg_of_full.
       + (* aggregate part *)
         destruct (w_aggonly j) eqn:Ha.
-        * right. right. intros v Hv. unfold agg_part. simpl. rewrite Hdiags. destruct (contents s v); [|contradiction].
-          unfold run_aggs. destruct (w_overwrite j) eqn:Ho; [first [discriminate (Hjshape eq_refl)|rewrite (Hjshape Ho) in Ha; discriminate|rewrite (Hjshape eq_refl) in Ha; discriminate]|].
+        * right. right. intros v Hv. destruct (masked s v) eqn:Em; [left; exact Em|right].
+          unfold agg_part. simpl. rewrite Hdiags, Em. destruct (contents s v); [|contradiction].
+          unfold run_aggs. destruct (w_overwrite j) eqn:Ho;
+            [first [discriminate (Hjshape eq_refl)|rewrite (Hjshape Ho) in Ha; discriminate|rewrite (Hjshape eq_refl) in Ha; discriminate]|].
           apply merge_own. intros d Hd. apply (H_acodes _ _ _ _ Hd).
         * destruct (Nat.ltb 1 (count' s)) eqn:Hc1.
           2:{ right. left. change (count' (publish_all perr (set_aggs (set_diags s0 (run_diags U fdiags areport agg fx j s0)) (run_aggs j s0)))) with (count' s).
               apply Nat.ltb_ge in Hc1. exact Hc1. }
           unfold run_aggs. destruct (w_overwrite j) eqn:Ho.
-          -- right. right. intros v Hv. unfold agg_part. simpl. rewrite Hdiags. rewrite ?Ha. destruct (contents s v); [|contradiction].
+          -- right. right. intros v Hv. destruct (masked s v) eqn:Em; [left; exact Em|right].
+             unfold agg_part. simpl. rewrite Hdiags, Em. rewrite ?Ha. destruct (contents s v); [|contradiction].
              rewrite agg_of_full, Hc1. reflexivity.
           -- destruct i_aggs0 as [[j0 [Hin [Ho0 Ha0]]]|H].
              ++ left. assert (Hin' : In j0 (qw s ++ q)) by (apply Hrest; [exact Hin|congruence]).
                 apply in_app_or in Hin'. destruct Hin' as [Hin'|Hin'].
                 ** right. left. simpl. intros E. rewrite E in Hin'. destruct Hin'.
                 ** right. right. simpl. intros E. rewrite E in Hin'. destruct Hin'.
-             ++ right. right. intros v Hv. unfold agg_part. simpl. rewrite Hdiags. rewrite ?Ha. destruct (contents s v); [|contradiction].
+             ++ right. right. intros v Hv. destruct (masked s v) eqn:Em; [left; exact Em|right].
+                unfold agg_part. simpl. rewrite Hdiags, Em. rewrite ?Ha. destruct (contents s v); [|contradiction].
                 rewrite agg_of_full, Hc1. apply H_aext. intros w. symmetry. apply H.
       + (* codes *)
         destruct (w_aggonly j) eqn:Ha.
         * destruct i_codes0 as [[j0 [Hin Ha0]]|H].
           -- left. exists j0. simpl. split; [|exact Ha0]. apply Hrest; [exact Hin|congruence].
-          -- right. intros v d. rewrite Hdiags. destruct (contents s v); [|apply H].
+          -- right. intros v d. simpl. rewrite Hdiags. destruct (contents s v); [|apply H].
+             destruct (masked s v); [apply H|].
              unfold merge_rules. intros Hd. apply in_app_or in Hd. destruct Hd as [Hd|Hd].
              ++ apply filter_In in Hd. apply (H v d). tauto.
              ++ right. apply (H_acodes _ _ _ _ Hd).
-        * right. intros v d. rewrite Hdiags. destruct (contents s v) eqn:Ec.
-          -- apply codes_of_full.
-          -- rewrite (Hnone v Ec). intros [].
+        * right. intros v d. simpl. rewrite Hdiags. destruct (contents s v) eqn:Ec.
+          -- destruct (masked s v) eqn:Em.
+             ++ destruct Hside as [Hj|Hn]; [apply Hj|]. unfold masked in Em. rewrite (Hn v) in Em. discriminate.
+             ++ apply codes_of_full.
+          -- destruct (i_dom0 v Ec) as (_ & _ & _ & Hd & _). rewrite Hd. intros [].
       + (* pub *)
-        intros v. unfold send. simpl. rewrite i_perrs0. destruct (contents s v) eqn:Ec; [reflexivity|].
-        rewrite Hdiags, Ec. apply i_pub0.
+        right. right. intros v Hv. destruct (contents s v); [reflexivity|contradiction].
       + (* nodiag *)
         intros v Hm. rewrite Hdiags. destruct (contents s v) eqn:Ec; [|apply i_nodiag0; exact Hm].
-        destruct (w_aggonly j).
+        destruct (w_aggonly j); destruct (masked s v); try (apply i_nodiag0; exact Hm).
         * rewrite (i_nodiag0 v Hm). unfold merge_rules. simpl. apply H_adom. apply i_noagg0. exact Hm.
         * apply full_nomodule. exact Hm.
       + (* noagg *)
@@ -646,45 +770,174 @@ Section Conv.
       + intros j0 Hin. apply i_jobs0. apply Hsub. exact Hin.
   Qed.
 
-  (* ---------------- every step allowed by the partial theorem preserves the invariant ---------------- *)
-  Lemma inv_step l s s' : ok_label l -> Inv s -> step' l s = Some s' -> Inv s'.
+  (* ---------------- every job-atomic step preserves the invariant ---------------- *)
+  Lemma inv_step l s s' : au_label l -> Inv s -> junkfree s \/ nomasked s -> step' l s = Some s' -> Inv s'.
   Proof.
-    intros Hok I Hs. destruct l; simpl in Hs.
+    intros [Hat Hu] I Hside Hs. destruct l; simpl in Hs; try discriminate Hat.
     - eapply inv_handle; eassumption.
     - eapply inv_file_job; eassumption.
     - eapply inv_dispatch; eassumption.
     - eapply inv_ws_run; eassumption.
-    - destruct Hok.
-    - destruct Hok.
   Qed.
 
-  Lemma inv_run ls : forall s s', Forall ok_label ls -> Inv s -> run' ls s = Some s' -> Inv s'.
+  (* ---------------- the two side invariants ---------------- *)
+  (* (a) histories that never introduce an unparseable document: no file ever shows parse errors *)
+  Definition clean (s : state) : Prop :=
+    nomasked s /\ forall u c, contents s u = Some c -> parses c = true.
+
+  Lemma clean_init f k : parse_ok_init U parses f -> clean (init_state parses f k).
   Proof.
-    induction ls as [|l ls IH]; intros s s' Hok I Hr; simpl in Hr.
-    - injection Hr as <-. exact I.
+    intros Hf. split; simpl.
+    - intros u. simpl. destruct (f u) as [c|] eqn:E; [|reflexivity]. rewrite (proj1 (Hf u c E)). reflexivity.
+    - intros u c E. apply (Hf u c E).
+  Qed.
+
+  Lemma file_store_perrs s u m : perrs (file_store perr fdiags nonagg s u m) = perrs s.
+  Proof.
+    unfold file_store. destruct m as [mc|]; simpl; [|reflexivity].
+    destruct (is_some (contents s u) && negb (masked s u)); reflexivity.
+  Qed.
+
+  Lemma file_store_contents s u m : contents (file_store perr fdiags nonagg s u m) = contents s.
+  Proof.
+    unfold file_store. destruct m as [mc|]; simpl; [|reflexivity].
+    destruct (is_some (contents s u) && negb (masked s u)); reflexivity.
+  Qed.
+
+  Lemma clean_step l s s' : parse_ok_label U parses l -> clean s -> step' l s = Some s' -> clean s'.
+  Proof.
+    intros Hok [Hn Hc] Hs. destruct l as [e| | | | |]; simpl in Hs; try contradiction.
+    - destruct e as [u c|u|u v|k]; simpl in Hs.
+      + injection Hs as <-. destruct Hok as [Hp _]. split; simpl; [exact Hn|].
+        intros w c' E. destruct (N.eqb_spec w u) as [->|Hne]; [rewrite upd_same in E; congruence|].
+        rewrite upd_other in E by exact Hne. eauto.
+      + injection Hs as <-. split; simpl.
+        * intros w. simpl. destruct (N.eqb_spec w u) as [->|Hne]; [apply upd_same|rewrite upd_other by exact Hne; apply Hn].
+        * intros w c' E. destruct (N.eqb_spec w u) as [->|Hne]; [rewrite upd_same in E; discriminate|].
+          rewrite upd_other in E by exact Hne. eauto.
+      + destruct (contents s u) as [c|] eqn:Ec; [|discriminate]. injection Hs as <-. split; simpl.
+        * intros w. simpl. destruct (N.eqb_spec w u) as [->|Hne]; [apply upd_same|rewrite upd_other by exact Hne; apply Hn].
+        * intros w c' E. destruct (N.eqb_spec w v) as [->|Hne]; [rewrite upd_same in E; injection E as <-; eauto|].
+          rewrite upd_other in E by exact Hne.
+          destruct (N.eqb_spec w u) as [->|Hne2]; [rewrite upd_same in E; discriminate|].
+          rewrite upd_other in E by exact Hne2. eauto.
+      + injection Hs as <-. split; simpl; assumption.
+    - unfold file_job in Hs. destruct (inflight s); [discriminate|]. destruct (qf s) as [|u q]; [discriminate|]. simpl in Hs.
+      destruct (contents s u) as [c|] eqn:Ec.
+      + unfold update_parse in Hs. rewrite (Hc u c Ec) in Hs. injection Hs as <-. split.
+        * intros w. rewrite file_store_perrs. simpl.
+          destruct (N.eqb_spec w u) as [->|Hne]; [apply upd_same|rewrite upd_other by exact Hne; apply Hn].
+        * intros w c' E. rewrite file_store_contents in E. simpl in E. eauto.
+      + injection Hs as <-. split; simpl; assumption.
+    - unfold dispatch in Hs. destruct (qw s) as [|j q]; [discriminate|].
+      destruct (w_aggonly j && Nat.ltb 5 (length (qr s))); injection Hs as <-; split; simpl; assumption.
+    - unfold ws_run in Hs. destruct (qr s) as [|j q]; [discriminate|].
+      destruct (Nat.eqb (count' (set_qr s q)) 0); injection Hs as <-; split; simpl; assumption.
+  Qed.
+
+  (* (b) histories without config change: the cached diagnostics never leave the enabled rules *)
+  Lemma junkfree_init f k : junkfree (init_state parses f k).
+  Proof. intros u d H. destruct H. Qed.
+
+  Lemma junkfree_step l s s' : atomic l = true -> no_config_label l -> junkfree s -> step' l s = Some s' -> junkfree s'.
+  Proof.
+    intros Hat Hnc Hj Hs. destruct l as [e| | | | |]; simpl in Hs; try discriminate Hat.
+    - destruct e as [u c|u|u v|k]; simpl in Hs; try contradiction.
+      + injection Hs as <-. exact Hj.
+      + injection Hs as <-. intros w d. simpl. destruct (N.eqb_spec w u) as [->|Hne].
+        * rewrite updl_same. intros [].
+        * rewrite updl_other by exact Hne. apply Hj.
+      + destruct (contents s u) as [c|]; [|discriminate]. injection Hs as <-. intros w d. simpl.
+        destruct (N.eqb_spec w u) as [->|Hne].
+        * rewrite updl_same. intros [].
+        * rewrite updl_other by exact Hne. apply Hj.
+    - unfold file_job in Hs. destruct (inflight s); [discriminate|]. destruct (qf s) as [|u q]; [discriminate|]. simpl in Hs.
+      destruct (contents s u) as [c|] eqn:Ec; [|injection Hs as <-; exact Hj].
+      injection Hs as <-. unfold file_store.
+      set (s1 := update_parse parses fx (set_qf s q) u c).
+      assert (E1 : diags s1 = diags s /\ conf s1 = conf s).
+      { unfold s1, update_parse. destruct (parses c); simpl; auto. }
+      destruct E1 as [Ed Ek].
+      destruct (modules s1 u) as [mc|]; simpl.
+      + destruct (is_some (contents s1 u) && negb (masked s1 u)); simpl.
+        * intros w d. simpl. rewrite Ek. destruct (N.eqb_spec w u) as [->|Hne].
+          -- rewrite updl_same, Ed. unfold merge_rules. intros Hd. apply in_app_or in Hd. destruct Hd as [Hd|Hd].
+             ++ apply filter_In in Hd. apply (Hj u d). tauto.
+             ++ left. apply (H_fcodes _ _ _ _ Hd).
+          -- rewrite updl_other, Ed by exact Hne. apply Hj.
+        * intros w d. simpl. rewrite Ek, Ed. apply Hj.
+      + intros w d. simpl. rewrite Ek, Ed. apply Hj.
+    - unfold dispatch in Hs. destruct (qw s) as [|j q]; [discriminate|].
+      destruct (w_aggonly j && Nat.ltb 5 (length (qr s))); injection Hs as <-; exact Hj.
+    - unfold ws_run in Hs. destruct (qr s) as [|j q]; [discriminate|].
+      destruct (Nat.eqb (count' (set_qr s q)) 0); injection Hs as <-; [exact Hj|].
+      intros w d. simpl. unfold run_diags. simpl.
+      destruct (contents s w); [|apply Hj].
+      destruct (w_aggonly j).
+      + match goal with |- context [if ?b then _ else _] => destruct b end; [apply Hj|].
+        unfold merge_rules. intros Hd. apply in_app_or in Hd. destruct Hd as [Hd|Hd].
+        * apply filter_In in Hd. apply (Hj w d). tauto.
+        * right. unfold agg_fd in Hd. simpl in Hd. apply (H_acodes _ _ _ _ Hd).
+      + match goal with |- context [if ?b then _ else _] => destruct b end; [apply Hj|].
+        apply (codes_of_full (set_qr s q) w d).
+  Qed.
+
+  (* ---------------- runs ---------------- *)
+  Lemma inv_run_clean ls : forall s s',
+    Forall (parse_ok_label U parses) ls -> Inv s -> clean s -> run' ls s = Some s' -> Inv s' /\ clean s'.
+  Proof.
+    induction ls as [|l ls IH]; intros s s' Hok I Hc Hr; simpl in Hr.
+    - injection Hr as <-. auto.
     - inversion Hok as [|? ? Hl Hls]; subst. destruct (step' l s) as [s1|] eqn:Hs; [|discriminate].
-      apply (IH s1 s' Hls); [eapply inv_step; eassumption|exact Hr].
+      apply (IH s1 s' Hls); [|eapply clean_step; eassumption|exact Hr].
+      apply (inv_step l s s1); [|exact I|right; apply Hc|exact Hs].
+      destruct l as [e| | | | |]; simpl in Hl; try contradiction; split; try reflexivity; try exact I.
+      destruct e; simpl in *; tauto.
+  Qed.
+
+  Lemma inv_run_noconfig ls : forall s s',
+    Forall au_label ls -> Forall no_config_label ls -> Inv s -> junkfree s -> run' ls s = Some s' -> Inv s' /\ junkfree s'.
+  Proof.
+    induction ls as [|l ls IH]; intros s s' Hau Hnc I Hj Hr; simpl in Hr.
+    - injection Hr as <-. auto.
+    - inversion Hau as [|? ? Hl Hls]; subst. inversion Hnc as [|? ? Hl2 Hls2]; subst.
+      destruct (step' l s) as [s1|] eqn:Hs; [|discriminate].
+      apply (IH s1 s' Hls Hls2); [|eapply junkfree_step; try eassumption; apply Hl|exact Hr].
+      apply (inv_step l s s1 Hl I); [left; exact Hj|exact Hs].
   Qed.
 
   (* ---------------- at quiescence the invariant is the specification ---------------- *)
   Lemma quiescent_converged s : Inv s -> quiescent s -> count' s <> 1%nat ->
+    (forall u c, contents s u = Some c -> parses c = true) ->
     forall u, Permutation (pub s u) (fresh' (contents s) (conf s) u).
   Proof.
-    intros I (Hqf & Hqw & Hqr & _) Hcount u. destruct I.
+    intros I (Hqf & Hqw & Hqr & _) Hcount Hall u. pose proof I as I0. destruct I.
+    assert (Hps : forall v c, contents s v = Some c -> modules s v = Some c /\ perrs s v = None).
+    { intros v c Ec. destruct (i_parse0 v c Ec) as [H|H]; [rewrite Hqf in H; destruct H|].
+      unfold parse_state in H. rewrite (Hall v c Ec) in H. exact H. }
     assert (Hmod : forall v, modules s v = contents s v).
-    { intros v. destruct (contents s v) as [c|] eqn:Ec.
-      - destruct (i_parse0 v c Ec) as [H|H]; [rewrite Hqf in H; destruct H|exact H].
-      - destruct (modules s v) eqn:Em; [|reflexivity]. exfalso. apply (i_dom0 v); [rewrite Em; discriminate|exact Ec]. }
+    { intros v. destruct (contents s v) as [c|] eqn:Ec; [apply (Hps v c Ec)|apply (i_dom0 v Ec)]. }
+    assert (Hnm : forall v, masked s v = false).
+    { intros v. unfold masked. destruct (contents s v) as [c|] eqn:Ec.
+      - rewrite (proj2 (Hps v c Ec)). reflexivity.
+      - destruct (i_dom0 v Ec) as (_ & Hp & _). rewrite Hp. reflexivity. }
     assert (Hnopend : forall P : wjob -> Prop, ~ (exists j, In j (qw s ++ qr s) /\ P j)).
     { intros P [j [Hin _]]. rewrite Hqw, Hqr in Hin. destruct Hin. }
     assert (Haggs : forall v, aggs s v = ideal_aggs s v).
     { destruct i_aggs0 as [H|H]; [exfalso; apply (Hnopend (fun j => w_overwrite j = true /\ w_aggonly j = false)); exact H|exact H]. }
     assert (Hcountp : count_parsed U parses (contents s) = count' s).
     { unfold count_parsed, count_modules. f_equal. apply filter_ext. intros v. rewrite Hmod.
-      destruct (contents s v) as [c|] eqn:Ec; [|reflexivity]. simpl. apply (i_cont0 v c Ec). }
-    rewrite i_pub0. unfold fresh. destruct (contents s u) as [c|] eqn:Ec.
-    2:{ rewrite i_nodiag0; [constructor|]. rewrite Hmod. exact Ec. }
-    destruct (i_cont0 u c Ec) as [Hp Hu]. rewrite Hp, Hcountp.
+      destruct (contents s v) as [c|] eqn:Ec; [|reflexivity]. simpl. apply (Hall v c Ec). }
+    unfold fresh. destruct (contents s u) as [c|] eqn:Ec.
+    2:{ destruct (i_dom0 u Ec) as (_ & _ & _ & _ & Hpub). rewrite Hpub. constructor. }
+    rewrite (Hall u c Ec), Hcountp.
+    assert (Hc2 : (2 <= count' s)%nat).
+    { destruct (count' s) as [|[|n]] eqn:En; [|contradiction|lia].
+      pose proof (count_zero_none s u (i_cont0 u c Ec) En) as Hn. rewrite Hmod, Ec in Hn. discriminate. }
+    assert (Hpub : pub s u = diags s u).
+    { destruct i_pub0 as [H|[H|H]]; [lia|rewrite Hqw, Hqr in H; contradiction|].
+      rewrite (H u) by (rewrite Ec; discriminate). apply send_noperr. apply (Hps u c Ec). }
+    rewrite Hpub.
     assert (Hcodes : forall d, In d (diags s u) ->
               mem (code d) (nonagg (conf s)) = true \/ mem (code d) (agg (conf s)) = true).
     { destruct i_codes0 as [H|H]; [exfalso; apply (Hnopend (fun j => w_aggonly j = false)); exact H|apply H]. }
@@ -693,34 +946,28 @@ Section Conv.
     - intros d. apply H_disj.
     - assert (Hf : filter (fun d => mem (code d) (nonagg (conf s))) (diags s u) = fdiags (conf s) u c).
       { destruct i_file0 as [H|H]; [exfalso; apply (Hnopend (fun j => w_aggonly j = false)); exact H|].
-        destruct (H u) as [H'|H']; [rewrite Ec; discriminate|rewrite Hqf in H'; destruct H'|].
+        destruct (H u) as [H'|[H'|H']]; [rewrite Ec; discriminate|rewrite Hqf in H'; destruct H'|rewrite Hnm in H'; discriminate|].
         unfold nonagg_part, target_file in H'. rewrite Hmod, Ec in H'. exact H'. }
       rewrite Hf. apply Permutation_app_head.
-      destruct (Nat.ltb 1 (count' s)) eqn:Hc1.
-      + destruct i_agg0 as [[[v [Hv _]]|[H|H]]|[H|H]].
-        * rewrite Hqf in Hv. destruct Hv.
-        * contradiction.
-        * contradiction.
-        * apply Nat.ltb_lt in Hc1. lia.
-        * fold (agg_part s u). rewrite (H u) by (rewrite Ec; discriminate).
-          erewrite H_aext; [apply Permutation_refl|]. intros w. rewrite Haggs. unfold ideal_aggs, fresh_aggs.
-          rewrite Hmod. destruct (contents s w) as [cw|] eqn:Ew; [|reflexivity]. rewrite (proj1 (i_cont0 w cw Ew)). reflexivity.
-      + (* fewer than two modules and not exactly one: there is none, but u has one *)
-        exfalso. apply Nat.ltb_ge in Hc1.
-        assert (Hz : count' s = 0%nat) by lia.
-        pose proof (count_zero_none s u Hu Hz) as Hn. rewrite Hmod, Ec in Hn. discriminate.
+      assert (Hlt : Nat.ltb 1 (count' s) = true) by (apply Nat.ltb_lt; lia). rewrite Hlt.
+      destruct i_agg0 as [[[v [Hv _]]|[H|H]]|[H|H]].
+      + rewrite Hqf in Hv. destruct Hv.
+      + contradiction.
+      + contradiction.
+      + lia.
+      + destruct (H u) as [H'|H']; [rewrite Ec; discriminate|rewrite Hnm in H'; discriminate|].
+        fold (agg_part s u). rewrite H'.
+        erewrite H_aext; [apply Permutation_refl|]. intros w. rewrite Haggs. unfold ideal_aggs, fresh_aggs.
+        rewrite Hmod. destruct (contents s w) as [cw|] eqn:Ew; [|reflexivity]. rewrite (Hall w cw Ew). reflexivity.
   Qed.
 
   Lemma deleted_has_none s : Inv s -> forall u, contents s u = None -> pub s u = [].
-  Proof.
-    intros I u Hc. rewrite (i_pub _ I). apply (i_nodiag _ I).
-    destruct (modules s u) eqn:Em; [|reflexivity]. exfalso. apply (i_dom _ I u); [rewrite Em; discriminate|exact Hc].
-  Qed.
+  Proof. intros I u Hc. apply (i_dom _ I u Hc). Qed.
 
-  (* the partial convergence theorem *)
+  (* (a) parse-failure-free histories, config changes allowed *)
   Theorem converges_job_atomic_partial_lemma :
     forall (f : fmap content) (k : cfg) (ls : list label) (s : state),
-      ok_init f -> Forall ok_label ls ->
+      parse_ok_init U parses f -> Forall (parse_ok_label U parses) ls ->
       run' ls (init_state parses f k) = Some s ->
       quiescent s ->
       count' s <> 1%nat ->
@@ -728,7 +975,25 @@ Section Conv.
       (forall u, contents s u = None -> pub s u = []).
   Proof.
     intros f k ls s Hf Hls Hr Hq Hc.
-    assert (I : Inv s) by (eapply inv_run; [exact Hls|apply inv_init; exact Hf|exact Hr]).
+    assert (Hfu : in_universe_init U f) by (intros u c E; apply (Hf u c E)).
+    destruct (inv_run_clean ls _ _ Hls (inv_init f k Hfu) (clean_init f k Hf) Hr) as [I [_ Hall]].
+    split; [apply quiescent_converged; assumption|apply deleted_has_none; exact I].
+  Qed.
+
+  (* (b) arbitrary contents (documents may stop parsing and parse again), no config change: converged as
+     soon as every file of the workspace parses *)
+  Theorem converges_job_atomic_noconfig_lemma :
+    forall (f : fmap content) (k : cfg) (ls : list label) (s : state),
+      in_universe_init U f -> Forall au_label ls -> Forall no_config_label ls ->
+      run' ls (init_state parses f k) = Some s ->
+      quiescent s ->
+      count' s <> 1%nat ->
+      (forall u c, contents s u = Some c -> parses c = true) ->
+      (forall u, Permutation (pub s u) (fresh' (contents s) (conf s) u)) /\
+      (forall u, contents s u = None -> pub s u = []).
+  Proof.
+    intros f k ls s Hf Hau Hnc Hr Hq Hc Hall.
+    destruct (inv_run_noconfig ls _ _ Hau Hnc (inv_init f k Hf) (junkfree_init f k) Hr) as [I _].
     split; [apply quiescent_converged; assumption|apply deleted_has_none; exact I].
   Qed.
 End Conv.
@@ -748,6 +1013,23 @@ Theorem converges_job_atomic_partial_closed :
 Proof.
   intros U parses perr fdiags areport nonagg agg [H1 H2 H3 H4 H5 _].
   apply (converges_job_atomic_partial_lemma U parses perr fdiags areport nonagg agg H1 H2 H3 H4 H5).
+Qed.
+
+Theorem converges_job_atomic_noconfig_closed :
+  forall (U : list uri) parses perr fdiags areport nonagg agg,
+    linter_ok parses perr fdiags areport nonagg agg ->
+    forall (f : fmap content) (k : cfg) (ls : list label) (s : state),
+      in_universe_init U f ->
+      Forall (job_atomic_label U) ls -> Forall no_config_label ls ->
+      run U parses perr fdiags areport nonagg agg current ls (init_state parses f k) = Some s ->
+      quiescent s ->
+      count_modules U s <> 1%nat ->
+      (forall u c, contents s u = Some c -> parses c = true) ->
+      (forall u, Permutation (pub s u) (fresh U parses perr fdiags areport (contents s) (conf s) u)) /\
+      (forall u, contents s u = None -> pub s u = []).
+Proof.
+  intros U parses perr fdiags areport nonagg agg [H1 H2 H3 H4 H5 _].
+  apply (converges_job_atomic_noconfig_lemma U parses perr fdiags areport nonagg agg H1 H2 H3 H4 H5).
 Qed.
 
 Lemma w_linter_ok : linter_ok w_parses w_perr w_fd w_ar w_nonagg w_agg.
@@ -851,3 +1133,13 @@ Lemma ex_history_ok :
   | None => False
   end.
 Proof. split; [unfold ex_history; solve_forall|vm_compute; repeat split]. Qed.
+
+(* non-vacuity of the no-config theorem: b stops parsing, a is edited meanwhile, b parses again *)
+Lemma ex_history2_ok :
+  Forall (job_atomic_label wU) ex_history2 /\ Forall no_config_label ex_history2 /\
+  match w_run current [(0, 0); (1, 1); (2, 1)] ex_history2 with
+  | Some s => quiescentb s = true /\ count_modules wU s = 3%nat /\ pub s 1 = [(1, 30)] /\
+              forallb (fun u => match contents s u with Some c => w_parses c | None => true end) wU = true
+  | None => False
+  end.
+Proof. split; [unfold ex_history2; solve_forall|split; [unfold ex_history2; solve_forall|vm_compute; repeat split]]. Qed.
